@@ -125,9 +125,15 @@ def device(c):
     ts = c.unit(d, ports)
     I, O = ts.inputs, ts.outputs
     n = c.nx
-    regs = {str(v): v for v in ts.state.values()}
-    address = regs["address"] if "address" in regs and regs["address"].size() == 7 else ts.sig("address")   # the 7-bit register
-    configuration = ts.sig("configuration")
+    # the device's own state registers are local Signals of USBDevice.elaborate(): they are identified by ROLE (the register of
+    # the device's own module that drives the token detector's address filter / the endpoint multiplexer's shared
+    # active_address / active_config ports), the children by class -- not by local-variable or submodule names
+    from luna.gateware.usb.usb2.packet import USBTokenDetector
+    from luna.gateware.usb.usb2.endpoint import USBEndpointMultiplexer
+    from .w1_usb2_glue import device_register
+    td, epmux = ts.instance(USBTokenDetector), ts.instance(USBEndpointMultiplexer)
+    address = device_register(ts, d, [epmux.shared.active_address, td.address], "address")          # the 7-bit register
+    configuration = device_register(ts, d, [epmux.shared.active_config], "configuration")
     bus_reset = O["reset_detected"] == 1                       # = reset_sequencer.bus_reset (device output)
     ci = ce.interface
     addr_strobe, new_addr = ts.of(ci.address_changed) == 1, ts.of(ci.new_address)
@@ -141,7 +147,7 @@ def device(c):
              clause="the configuration changes only by a bus reset (to 0) or by the control endpoint's commit strobe")
     c.ensure("bus_reset_clears_both", z3.Implies(bus_reset, z3.And(n(address) == 0, n(configuration) == 0)),
              clause="a bus reset returns the device to address 0 and configuration 0")
-    c.ensure("tokens_filtered_on_the_register", ts.sig("token_detector.address") == address,
+    c.ensure("tokens_filtered_on_the_register", ts.of(td.address) == address,
              clause="until the commit the device keeps responding at its old address (the token detector filters on the register)")
     c.ensure("endpoints_see_the_registers",
              z3.And(ts.of(ci.active_config) == configuration, ts.of(ep1.interface.active_config) == configuration,
